@@ -181,6 +181,31 @@ impl Report {
     }
 }
 
+/// End the run because a call into the code under test never returned (see `exec::start_hang_monitor`).
+pub fn hang_exit(prop: &str, tier: &str, label: &str, secs: f64) -> ! {
+    let key = format!("hang|{label}");
+    let what = format!("{label}: a call into the code under test had not returned after {secs:.0} s (no random words drawn meanwhile); the run was ended, coverage of this run is incomplete");
+    let known = load_known();
+    let hit = known.iter().find(|k| k.property == prop && k.status == "known" && (key.starts_with(&k.key_prefix) || k.key_prefix.contains(label) && !label.is_empty()));
+    let _ = std::fs::create_dir_all(format!("{VERIF_DIR}/replays"));
+    let _ = std::fs::create_dir_all(format!("{VERIF_DIR}/evidence"));
+    let path = format!("{VERIF_DIR}/replays/{prop}-{:016x}.json", fnv(key.as_bytes()));
+    let _ = std::fs::write(&path, serde_json::to_string_pretty(&json!({"property": prop, "key": key, "what": what, "replay": {"case": label, "how": "construct the case and call sample() on the streams of the deviation sweep of this property (engine D lists the script when it meets the same call)"}})).unwrap());
+    let ev = json!({"property_id": prop, "tier": tier, "seed": 0, "level": "exploration", "coverage": {"ended_by_hang_monitor": label, "samples": []}, "assumptions": [], "wall_s": 0.0,
+        "violations": if hit.is_some() { 0 } else { 1 }, "known_findings_seen": if hit.is_some() { 1 } else { 0 }});
+    let _ = std::fs::write(format!("{VERIF_DIR}/evidence/{prop}.json"), serde_json::to_string_pretty(&ev).unwrap());
+    match hit {
+        Some(k) => {
+            println!("KNOWN-FINDING: property={prop} {} [met by the hang monitor at {label}]", k.what);
+            std::process::exit(0)
+        }
+        None => {
+            println!("VIOLATION property={prop} replay={path}   # {key} :: {what}");
+            std::process::exit(1)
+        }
+    }
+}
+
 pub fn fnv(b: &[u8]) -> u64 {
     let mut h = 0xcbf29ce484222325u64;
     for &x in b {
